@@ -510,4 +510,14 @@ def rule_validate(ctx):
     return r
 
 
-RULES = [rule_validate, rule_arith, rule_prov, rule_mult, rule_leafcount, rule_multpair, rule_exec, rule_peak, rule_intsize, rule_maxcount, rule_totals_state, rule_intcost]
+def rule_topo(ctx):
+    """Shared with C10-TOPO / C02-TOPO (seed C03_12): `peak_size(order=...)` and the shapes actually produced by
+    an ordered execution are those of a real execution only if every traversal order lists children before
+    parents."""
+    from .c10 import rule_topo as src
+
+    return C.reuse_rule(ctx, src, "C10-TOPO", "C03-TOPO",
+                        "orders used for the peak and for execution are valid execution orders", lambda i: True, 5)
+
+
+RULES = [rule_topo, rule_validate, rule_arith, rule_prov, rule_mult, rule_leafcount, rule_multpair, rule_exec, rule_peak, rule_intsize, rule_maxcount, rule_totals_state, rule_intcost]
